@@ -377,13 +377,17 @@ def run_fragment(ctx, rng, n):
     rendered, parsed by the real parser; direct oracle = the declared model; the judge JParserFragment checks
     inside Coq that each description satisfies the theorem's hypotheses, that the theorem's rendering is the
     parsed text, and that the implementation returned the theorem's tree."""
-    descs, feats = [], {}
+    descs, feats, hazard_ix = [], {}, set()
     for i in range(n):
         g = F.FragGen(rng, size=1.0 if i % 5 else 2.0)
         d = g.file()
         descs.append((d, F.render(d)))
         for f in g.features:
             feats[f] = feats.get(f, 0) + 1
+    for i in range(2 if n < 200 else 6):
+        d = F.FragGen(rng).hazard_enum_overflow()
+        hazard_ix.add(len(descs))
+        descs.append((d, F.render(d)))
     resps = run_harness([{"op": "parse", "text": t.hex()} for _, t in descs])
     if len(resps) != len(descs):
         raise RuntimeError("harness answered %d of %d fragment requests" % (len(resps), len(descs)))
@@ -392,10 +396,12 @@ def run_fragment(ctx, rng, n):
         why = oracle_parse({"kind": "valid", "canon": G.canon(F.to_model(d))}, r)
         if why:
             failed.add(i)
+            hz = "enum_value_after_max_int64" if i in hazard_ix else None
             ctx.violation("C10 oracle (proved fragment): " + why,
-                          {"idl_text": t.decode("utf8", "backslashreplace"), "text_hex": t.hex(),
+                          {"idl_text": t.decode("utf8", "backslashreplace"), "text_hex": t.hex(), "hazard": hz,
                            "observed": {k: r.get(k) for k in ("code", "msg")},
-                           "theorem": "c10_roundtrip_structs_partial"})
+                           "theorem": "c10_enum_numbering_overflow_refuted" if hz else "c10_roundtrip_structs_partial"},
+                          signature={"hazard": hz} if hz else None)
     jcases = [[t, d["w0"], F.to_tok(d), r.get("code", 103), G.from_json(r["ast"]) if r.get("code") == 0 else []]
               for (d, t), r in zip(descs, resps)]
     verdicts = vlib.run_judge(ctx.rundir, "JParserFragment", "judge", jcases, shard=400000, name="jf")
@@ -404,7 +410,7 @@ def run_fragment(ctx, rng, n):
              -3: "generated description is outside the hypotheses of the theorem (generator fault)",
              -4: "the generator's text is not the theorem's rendering of the description (generator fault)"}
     for i, v in enumerate(verdicts):
-        if v < 0 and not (v == -1 and i in failed):
+        if v < 0 and not (v == -1 and i in failed and i not in hazard_ix):
             d, t = descs[i]
             ctx.violation("C10 proved fragment: " + why_v.get(v, "judge verdict %d" % v),
                           {"idl_text": t.decode("utf8", "backslashreplace"), "text_hex": t.hex(),
@@ -422,9 +428,11 @@ def run_fragment(ctx, rng, n):
         "cases": len(descs),
         "instances_accepted_by_judge": len([v for v in verdicts if v >= 0]),
         "judge_rejections": len([v for v in verdicts if v < 0]),
-        "oracle_failures": len(failed),
+        "oracle_failures": len(failed - hazard_ix),
+        "hazard_cases": len(hazard_ix),
+        "hazard_cases_failing_the_oracle_as_known": len(failed & hazard_ix),
         "kind_sets_seen": {str(k - 5000): c for k, c in sorted(tags.items()) if k >= 5000},
-        "kind_set_legend": "bit set: 1 typedef, 2 enum, 4 struct/exception/union, 8 const",
+        "kind_set_legend": "bit set: 1 typedef, 2 enum, 4 struct/exception/union, 8 const, 16 service",
         "render_styles_exercised": dict(sorted(feats.items())),
         "bytes": sum(len(t) for _, t in descs),
         "sample": [trunc(t, 300) for _, t in descs[:2]],
